@@ -1,3 +1,142 @@
 """Kani runner over the source overlay (real crates + appended #[cfg(kani)] harness modules)."""
-def run_groups(groups, tier):
-    return []
+import os
+import re
+import subprocess
+import time
+import tomllib
+
+from . import overlay
+from .unit import ROOT
+
+KTARGET = os.path.join(ROOT, "build", "kani-target")
+HARNESS_TIMEOUT_S = int(os.environ.get("VX_KANI_HARNESS_TIMEOUT", "900"))
+
+
+def registry():
+    with open(os.path.join(ROOT, "kani", "HARNESSES.toml"), "rb") as f:
+        return tomllib.load(f)["harness"]
+
+
+def run_groups(groups, tier, timeout=3000):
+    hs = [h for h in registry() if h["group"] in groups and (tier == "thorough" or h.get("tier", "quick") == "quick")]
+    return run_harnesses(hs, timeout)
+
+
+def run_harnesses(hs, timeout=3000):
+    overlay.sync()
+    results = []
+    by_crate = {}
+    for h in hs:
+        by_crate.setdefault(h["crate"], []).append(h)
+    for crate, lst in by_crate.items():
+        env = dict(os.environ, CARGO_NET_OFFLINE="true", CARGO_TARGET_DIR=KTARGET)
+        cmd = ["cargo", "kani", "-p", crate, "-Z", "stubbing", "-Z", "function-contracts", "-Z", "unstable-options", "--harness-timeout", "%ds" % HARNESS_TIMEOUT_S,
+               "--output-format", "terse",
+               "-j", str(min(8, len(lst)))]
+        feats = sorted(set(f for h in lst for f in h.get("features", [])))
+        if feats:
+            cmd += ["--features", ",".join(feats)]
+        for h in lst:
+            cmd += ["--harness", h["name"]]
+        t0 = time.time()
+        try:
+            p = subprocess.run(cmd, cwd=overlay.OVERLAY, env=env, capture_output=True, text=True, timeout=timeout)
+            out = p.stdout + "\n" + p.stderr
+            rc = p.returncode
+        except subprocess.TimeoutExpired as e:
+            out = ((e.stdout or b"").decode(errors="replace") if isinstance(e.stdout, bytes) else (e.stdout or "")) + "\nTIMEOUT"
+            rc = -9
+        wall = time.time() - t0
+        with open(os.path.join(ROOT, "build", "kani_%s.log" % crate), "w") as f:
+            f.write(" ".join(cmd) + "\n" + out)
+        parsed = parse(out)
+        for h in lst:
+            r = parsed.get(h["name"])
+            res = {"harness": h["name"], "fn": h.get("fn"), "alarm": h.get("alarm", []), "text": h.get("text", ""),
+                   "bounded": h.get("bounded", ""), "cmd": " ".join(cmd), "crate": crate}
+            if r is None:
+                res["status"] = "undecided"
+                res["reason"] = "no result for harness (rc=%s): %s" % (rc, _tail(out))
+            else:
+                res.update(r)
+            results.append(res)
+    return results
+
+
+def _tail(out):
+    lines = [l for l in out.splitlines() if l.strip()]
+    errs = [l for l in lines if l.startswith("error")]
+    return " | ".join((errs or lines)[-6:])[:800]
+
+
+def parse(out):
+    """Per-harness status from terse output."""
+    res = {}
+    # group output lines per harness (plain, or interleaved "Thread N:" output under -j)
+    blocks = {}
+    cur_of_thread = {}
+    active = None
+    for line in out.splitlines():
+        m = re.match(r"^(?:Thread (\d+): )?Checking harness (.*?)\.\.\.", line)
+        if m:
+            t = m.group(1) or "-"
+            cur_of_thread[t] = m.group(2).strip()
+            blocks.setdefault(cur_of_thread[t], [])
+            active = cur_of_thread[t] if m.group(1) is None else None
+            continue
+        m = re.match(r"^Thread (\d+):\s*(.*)$", line)
+        if m:
+            active = cur_of_thread.get(m.group(1))
+            if active and m.group(2):
+                blocks[active].append(m.group(2))
+            continue
+        if re.match(r"^(Manual Harness Summary|Complete - )", line):
+            active = None
+            continue
+        if active:
+            blocks[active].append(line)
+    for name_full, lines in blocks.items():
+        blk = "\n".join(lines)
+        name = name_full.split("::")[-1]
+        st = None
+        if re.search(r"VERIFICATION:- SUCCESSFUL", blk):
+            st = "success"
+        elif re.search(r"VERIFICATION:- FAILED", blk):
+            st = "failed"
+        tm = re.search(r"Verification Time: ([0-9.]+)s", blk)
+        r = {"time_s": float(tm.group(1)) if tm else None}
+        if st is None:
+            r["status"] = "undecided"
+            r["reason"] = "no verdict: " + _tail(blk)
+        else:
+            r["status"] = st
+            if st == "failed" and re.search(r"CBMC failed with status|out of memory|timed out|CBMC timed out", blk):
+                r["status"] = "undecided"
+                r["reason"] = "tool limit: " + _tail(blk)
+            elif st == "failed":
+                fails = re.findall(r"(?m)^Failed Checks: (.*)$", blk)
+                r["reason"] = "; ".join(fails[:5]) or _tail(blk)
+                # unwinding assertion failures / unsupported features are tool limits, not refutations
+                if fails and all(re.search(r"unwinding assertion|not currently supported|unsupported", f) for f in fails):
+                    r["status"] = "undecided"
+            # cover statements must be satisfied (vacuity guard)
+            uncov = re.findall(r"(?m)^.*cover.*: (UNSATISFIABLE|UNREACHABLE)", blk)
+            if st == "success" and re.search(r"\b0 of \d+ cover properties satisfied", blk):
+                r["status"] = "undecided"
+                r["reason"] = "vacuous: cover property not satisfied"
+            cv = re.search(r"(\d+) of (\d+) cover properties satisfied", blk)
+            if cv and st == "success" and cv.group(1) != cv.group(2):
+                r["status"] = "undecided"
+                r["reason"] = "vacuous: %s of %s cover properties satisfied" % (cv.group(1), cv.group(2))
+        res[name] = r
+    return res
+
+
+def warm():
+    """Pre-build the Kani artefacts of the overlay so that the first check does not pay for compilation."""
+    try:
+        hs = [h for h in registry() if h.get("warm")]
+        if hs:
+            run_harnesses(hs, timeout=3000)
+    except Exception as e:  # setup must not fail on a warm-up problem
+        print("setup: kani warm-up skipped: %s" % e)
